@@ -276,7 +276,7 @@ def run_network(c, rng, spec, wn, narrow):
             if j['name'] not in conn:
                 continue
             pmin, preq, e = params_of(spec, j)
-            D = sum(d['base'] * (ref.pattern_mult(pats[d['pattern']], t + o['pattern_start'], o['pattern_timestep']) if d['pattern'] else 1.0)
+            D = sum(d['base'] * (ref.pattern_mult(pats[d['pattern']], t + o['pattern_start'], o['pattern_timestep'], True, bool(o.get('pattern_interpolation'))) if d['pattern'] else 1.0)
                     for d in j['demands']) * o['demand_multiplier']
             p, d = float(P[j['name']].values[i]), float(Dm[j['name']].values[i])
             c.count('system_points')
